@@ -445,7 +445,7 @@ def _work_c17(items):
     for it in items:
         f = check_case_c17(it)
         if f:
-            out.append((it[1], f))
+            out.append((it[1], f, it[0]))
     return out
 
 
@@ -580,10 +580,43 @@ def _cfg(path, spec, maxdepth, seed, nchains, nper, emit, level, invs):
     return path
 
 
+def _tlc(cfg, wd, tag):
+    """vlib.run_tlc; with VERIF_TLC_CACHE=1 (opt-in, used for mutant self-tests only: the spec side does not depend
+    on the genjax tree) an output produced by identical spec + cfg text is reused."""
+    if os.environ.get("VERIF_TLC_CACHE") != "1":
+        return vlib.run_tlc("ChoiceMaps", cfg, wd, tag=tag, timeout=2400)
+    import hashlib
+    import shutil
+    h = hashlib.sha256()
+    for path in (os.path.join(vlib.SPEC, "ChoiceMaps.tla"), os.path.join(vlib.SPEC, "Selections.tla"),
+                 os.path.join(vlib.SPEC, "Rand.tla"), cfg):
+        with open(path, "rb") as f:
+            h.update(f.read())
+    cdir = os.path.join(vlib.WORK, "_tlc_cache_choicemaps")
+    os.makedirs(cdir, exist_ok=True)
+    cached = os.path.join(cdir, h.hexdigest()[:24] + ".out")
+    if not os.path.exists(cached):
+        res = vlib.run_tlc("ChoiceMaps", cfg, wd, tag=tag, timeout=2400)
+        shutil.copy(res.out_path, cached)
+        return res
+    res = vlib.TLCResult()
+    res.out_path, res.rc, res.cmd = cached, 0, "cached:" + cached
+    for line in res.lines():
+        m = vlib._STATS.search(line)
+        if m:
+            res.generated, res.distinct = int(m.group(1)), int(m.group(2))
+    return res
+
+
 def _pool_map(fn, items):
     # one XLA thread per worker process: the work is thousands of tiny eager ops
     os.environ.setdefault("XLA_FLAGS", "--xla_cpu_multi_thread_eigen=false intra_op_parallelism_threads=1")
     os.environ.setdefault("OMP_NUM_THREADS", "1")
+    # tracing allocates and frees many small blocks: keep freed memory in the process instead of mmap/munmap-ing it
+    # (measured: halves user+sys time of a worker; the workers are fresh interpreters and inherit this)
+    for k, v in (("PYTHONMALLOC", "malloc"), ("MALLOC_TRIM_THRESHOLD_", "2000000000"),
+                 ("MALLOC_MMAP_THRESHOLD_", "1000000000"), ("MALLOC_TOP_PAD_", "268435456")):
+        os.environ.setdefault(k, v)
     ctx = mp.get_context("spawn")
     with ctx.Pool(vlib.NCPU) as pool:
         return pool.map(fn, vlib.chunks(items, vlib.NCPU * 6))
@@ -604,12 +637,11 @@ def run_c17(rep, wd, tier, seed, replay):
         jit_every = 1
     else:
         level = 0 if tier == "quick" else 1
-        a = vlib.run_tlc("ChoiceMaps", _cfg(os.path.join(wd, "MC.cfg"), "CMSpec", 2, 0, 1, 1, True, level,
-                                            LAWS_C17 + ["CMEmit"]), wd, tag="roleAB", timeout=2400)
+        a = _tlc(_cfg(os.path.join(wd, "MC.cfg"), "CMSpec", 2, 0, 1, 1, True, level, LAWS_C17 + ["CMEmit"]), wd, "roleAB")
         rep.add_tlc(a)
         per = 25 if tier == "quick" else 400
-        s = vlib.run_tlc("ChoiceMaps", _cfg(os.path.join(wd, "Rand.cfg"), "CMSpecRand", 4, seed % 60000, 16, per, True,
-                                            level, ["CMEmitR", "LawWF", "LawSelR"]), wd, tag="rand", timeout=2400)
+        s = _tlc(_cfg(os.path.join(wd, "Rand.cfg"), "CMSpecRand", 4, seed % 60000, 16, per, True, level,
+                      ["CMEmitR", "LawWF", "LawSelR"]), wd, "rand")
         rep.add_tlc(s)
         seen = {}
         for res in (a, s):
@@ -617,13 +649,19 @@ def run_c17(rep, wd, tier, seed, replay):
                 key = json.dumps(c["term"], sort_keys=True)
                 if key not in seen:
                     seen[key] = c
-        cases = list(seen.values())
+        cases = [seen[k] for k in sorted(seen)]      # TLC's print order depends on thread scheduling
         rep.exhaustive = True
         rep.extra["exhaustive_scope"] = f"all well-formed terms of CMNext up to depth 2 at Level {level}"
         rep.extra["roleA_states"] = a.distinct
         rep.extra["random_terms"] = s.distinct
         jit_every = 47 if tier == "quick" else 7
-    items = [(i, c, (i % jit_every == 0)) for i, c in enumerate(cases)]
+    if replay:
+        with open(replay) as f:
+            sp0 = json.load(f)["detail"].get("sp", 0)
+        items = [(sp0, cases[0], True)]
+    else:
+        # the number i selects the API spellings used for the term (rotating, shifted by the seed)
+        items = [(i + seed % 1000, c, (i % jit_every == 0)) for i, c in enumerate(cases)]
     results = _pool_map(_work_c17, items)
     rep.evaluations = len(cases) * 2 + sum(1 for it in items if it[2])
     rep.traces = len(cases)
@@ -636,11 +674,11 @@ def run_c17(rep, wd, tier, seed, replay):
     rep.extra["tags_covered"] = sorted(set().union(*[tags(c["term"]) for c in cases])) if cases else []
     rep.extra["jit_terms"] = sum(1 for it in items if it[2])
     for chunk in results:
-        for c, fails in chunk:
+        for c, fails, sp in chunk:
             for f in fails[:4]:
                 sig = {"clause": f["clause"], "mode": f["mode"], "feature": f.get("feature", "-"),
                        "ops": top_ops(c["term"]), "term": show(c["term"])}
-                rep.violation(sig, {"case": c, "fail": f})
+                rep.violation(sig, {"case": c, "fail": f, "sp": sp})
     rep.assumptions = [
         "alphabet {a,b}(+c decoys), indices {0,1,2}, values 1..3, vectors of length 2; terms the API documents as "
         "errors are outside the grammar (WFT): Choice|non-Choice, two switches meeting in an Or, index lookups where "
@@ -664,9 +702,8 @@ def run_c33(rep, wd, tier, seed, replay):
     else:
         md = 2 if tier == "quick" else 3
         # NChains = 0 makes TLC print all six wrappers of every map; 1 = one wrapper per map rotating with Seed
-        a = vlib.run_tlc("ChoiceMaps", _cfg(os.path.join(wd, "Inv.cfg"), "InvSpec", md, seed % 60000,
-                                            1 if tier == "quick" else 0, 1, True, 0, ["LawInv", "InvEmit"]),
-                         wd, tag="roleAB", timeout=2400)
+        a = _tlc(_cfg(os.path.join(wd, "Inv.cfg"), "InvSpec", md, seed % 60000, 1 if tier == "quick" else 0, 1, True, 0,
+                      ["LawInv", "InvEmit"]), wd, "roleAB")
         rep.add_tlc(a)
         cases = sorted(a.payloads(), key=lambda c: (c["shape"], json.dumps(c["term"], sort_keys=True)))
     both = ("concrete", "array")
